@@ -64,11 +64,15 @@ def run(tier: str) -> int:
             except core.MachineryError:
                 raise
             exc, text = next((e for e in excs if e), ""), ""
+            if exc and h["cls"] == "Subquery":
+                continue  # a query is not an arithmetic operand (q + 1 builds a UNION): positions that cannot hold a subquery are skipped
             if not exc:
                 try:
                     text = str(q)
                 except Exception as ex:  # noqa
                     exc = type(ex).__name__
+                    if h["cls"] == "Subquery":
+                        continue  # (subquery == 1 is Python equality of builders, subquery + 1 a set operation: not operand positions)
             toks = lexer.lex(text, ld)
             events.append({"tid": len(events), "d": d, "hist": h["hist"], "exc": exc, "aliases": proj.alias_seq(toks)})
             meta.append((d, h, text))
